@@ -137,6 +137,8 @@ def gen_enum(r, tag, fixed_ok=True):
             (1 << 63) - 1, -(1 << 63), (1 << 64) - 1, 1 << 32, 100]
     n = r.randrange(1, 6)
     vals = [r.choice(pool) for _ in range(n)]
+    if r.random() < 0.25:
+        vals = [v for v in vals if 0 <= v < 2147483647] + [2147483647]      # largest enumerator exactly INT_MAX, none negative
     if k < 0.6:
         # plain enum whose values fit int: C11 semantics everywhere
         vals = [v for v in vals if -2147483648 <= v <= 2147483647] or [0]
